@@ -28,9 +28,9 @@ func init() {
 }
 
 func c18Main(e *Env) (*res.Result, error) {
-	n := 40
+	n := 64
 	if !e.Quick() {
-		n = 300
+		n = 400
 	}
 	disabled := disabledTags()
 	forms := specgen.BaseForms()
